@@ -4267,6 +4267,16 @@ fn diff_abi_def(a: &AbiTraitDefinition, b: &AbiTraitDefinition, path: String, is
                     return Some(diff);
                 }
             }
+            // The return value of a method of a nested trait object (a closure's result, the output of a
+            // future, the return value of a callback method) travels back serialized like any other value.
+            if let Some(diff) = diff_schema(
+                &amet.info.return_value,
+                &bmet.info.return_value,
+                format!("{}(return value)", amet.name),
+                true,
+            ) {
+                return Some(diff);
+            }
         }
     }
     return None;
